@@ -24,9 +24,30 @@ def run(ctx):
             ctx.nontrivial.add(json.dumps([e["ng"], e["rels"], e["k"]]))
     rej = ctx.validate("Trace_C12", ev, shard=3, xmx="8g", timeout=7200)
     ctx.confirm_and_raise("Trace_C12", rej)
+    # hooked runs: every derived_table call of the backtracking search is the transition function of LowIndex.tla
+    for c in (["S3", "Z2", "F2", "T23"] if ctx.quick else ["S3", "Z2", "F2", "T23", "KB"]):
+        ctx.mc("MC_LowIndex", cfg=f"MC_LowIndex_{c}", workers=8, universe=f"backtracking tree of LowIndex.tla, instance MC_LowIndex_{c}.cfg")
+    hv = ctx.work / "hooked.ndjson"
+    out = ctx.dsv("C12", "hooked", "--out", hv, "--syms", 14 if ctx.quick else 80, "--k", 5 if ctx.quick else 6,
+                  "--cap", 150 if ctx.quick else 1500, timeout=7200)
+    info = json.loads(out.strip().splitlines()[-1])
+    if info.get("runs", 0) > 0:
+        ctx.extra["hooked_runs"] = info["runs"]
+        rej = ctx.validate("Trace_C12h", hv, shard=400, group_field="run", xmx="4g", timeout=7200)
+        ctx.confirm_and_raise("Trace_C12h", rej, context_of=run_context)
+    else:
+        ctx.notes.append("hooks not compiled in: step-wise conformance of the low-index search skipped")
+
+
+def run_context(shard, at):
+    import re
+    g = re.search(r'"run":"([^"]*)"', shard[min(at, len(shard)) - 1]).group(1)
+    hdr = [ln for ln in shard if f'"run":"{g}"' in ln and '"ev":"header"' in ln]
+    return hdr[:1] + [shard[at - 1]]
 
 
 def replay(ctx, path):
     ctx.build()
-    rej = ctx.validate("Trace_C12", path, shard=10**9, xmx="8g")
-    ctx.confirm_and_raise("Trace_C12", rej)
+    mod = "Trace_C12h" if '"ev":"header"' in open(path).readline() else "Trace_C12"
+    rej = ctx.validate(mod, path, shard=10**9, xmx="8g")
+    ctx.confirm_and_raise(mod, rej, context_of=(lambda shard, at: shard) if mod == "Trace_C12h" else None)
